@@ -169,7 +169,7 @@ Definition sweep_ok (sc : Q) (G : Z) (o : sweep) (m : nq * (nq * (nq * nq))) : b
   (if Qle_bool (Qabs (sw_lo o - sw_hi o)) (tolq * sc) then true
    else sclose sc m_a (sw_hi o) && ((sw_g o + 1 >=? G)%Z || sclose sc m_b (sw_lo o))).
 
-Inductive qfn := FUsq (L : Z) | FBsq | FTern (sigma : Q).
+Inductive qfn := FUsq (L : Z) | FBsq | FTern (sigma : Q) | FUsqB (L : Z) (a b : Q) | FBsqB (a b : Q).
 
 (* the correspondence evaluates the TRANSLATED bodies (= usq / bsq / tern / drive_leaf by
    C11_translated_quantizers_are_model) *)
@@ -178,6 +178,9 @@ Definition qvec (fn : qfn) (v : list nq) (us : list Q) : list nq :=
   | FUsq L => gen_usq v (NanQ.of_Z L) (map Some us) None None
   | FBsq => gen_bsq v (map Some us) None None
   | FTern sg => gen_tern (fun _ => Some sg) v (map Some us)
+  (* explicit v_min / v_max *)
+  | FUsqB L a b => gen_usq v (NanQ.of_Z L) (map Some us) (Some (Some a)) (Some (Some b))
+  | FBsqB a b => gen_bsq v (map Some us) (Some (Some a)) (Some (Some b))
   end.
 
 Definition uagree (fn : qfn) (v : list Q) (G : Z) (obs : list sweep) : bool :=
